@@ -163,6 +163,97 @@ def x86MemLabel (s : State) (sh : MShape) (l : Nat) (disp : BitVec 32) : State Ã
         let s2 := newFixup s1 l { sec := s.cur, lr := none, offset := fieldPos, rel := rel64, fmt := fmtS 4 }
         (s2.emit (zeros 4 ++ sh.imm), .ok)
 
+/-! ### `[ABSOLUTE | DISP32]` memory operands (no base, no index, no label) -/
+
+/-- `Mem::AddrType` -/
+inductive AddrT where
+  | dflt | abs | rel
+  deriving DecidableEq, Repr, Inhabited
+
+/-- shape of an instruction with an absolute memory operand: mandatory prefix (66h), REX, opcode bytes, ModRM.reg, immediate -/
+structure AShape where
+  pp    : Bytes
+  rex   : Option (BitVec 8)
+  opc   : Bytes
+  opReg : BitVec 8
+  imm   : Bytes
+  isLea : Bool
+  moffs : Option (BitVec 8 Ã— Nat) := none   -- `mov al|ax|eax|rax <-> [moffs]`: opcode A0..A3 of the ModRM-less form, register size
+  deriving Repr, Inhabited
+
+def modrm (mod reg rm : BitVec 8) : BitVec 8 := (mod <<< 6) ||| (reg <<< 3) ||| rm
+def rexBytes : Option (BitVec 8) â†’ Bytes
+  | some r => [r] | none => []
+
+/-- `x86_should_use_movabs` (no segment override, no ModMR/ModRM option in the menu) -/
+def shouldUseMovabs (s : State) (regSize : Nat) (at_ : AddrT) (addr : BitVec 64) : Bool :=
+  if s.arch.is32 then true else
+  if at_ = .rel then false else
+  let addrI32 : Bool := (addr.truncate 32 : BitVec 32).signExtend 64 == addr
+  let direct : Bool :=
+    match (if at_ = .dflt then absLocation s else none) with
+    | some (base, so) =>
+      let instSize := (if regSize = 2 then 1 else 0) + (if regSize = 8 then 1 else 0) + 1 + 8
+      isInt32 (addr - (base + so + BitVec.ofNat 64 s.curOff + BitVec.ofNat 64 instSize))
+    | none => addrI32
+  if direct then false else decide (addr.toNat > 0xFFFFFFFF)
+
+/-- `EmitModSib`, `[ABSOLUTE | DISP32]` branch (x86assembler.cpp): 32-bit mode `[disp32]`; 64-bit mode the choice between
+`[rip + rel32]` (direct when the base is known and the target is in range, else a kAbsToRel relocation whose region ends
+after the trailing immediate) and the absolute `[disp32]` SIB form with the 67h / REX.W fix-up for addresses that are only
+representable zero-extended -/
+def x86MemAbsM (s : State) (sh : AShape) (at_ : AddrT) (addr : BitVec 64) : State Ã— Err :=
+  let lo : BitVec 32 := addr.truncate 32
+  if s.arch.is32 then
+    if at_ = .rel then (s, .invalidAddress) else
+    (s.emit (sh.pp ++ sh.opc ++ [modrm 0 sh.opReg 5] ++ leBytes lo.toNat 4 ++ sh.imm), .ok)
+  else
+    let isI32 : Bool := lo.signExtend 64 == addr
+    let isU32 : Bool := lo.zeroExtend 64 == addr
+    let at1 : AddrT :=
+      if at_ = .dflt then
+        match absLocation s with
+        | some _ => if isI32 || isU32 then .abs else .rel
+        | none => if sh.isLea && (isI32 || isU32) then .abs else .rel      -- (no FS/GS override in the menu)
+      else at_
+    let leadRel := sh.pp ++ rexBytes sh.rex ++ sh.opc ++ [modrm 0 sh.opReg 5]
+    let absForm : State Ã— Err :=
+      if !isI32 && !isU32 then (s, .invalidAddress64Bit) else
+      let pre : Bytes :=
+        if isI32 then sh.pp ++ rexBytes sh.rex
+        else if sh.isLea then
+          -- "LEA: Remove REX.W, if present" (and the whole prefix when nothing else is left in it)
+          match sh.rex with
+          | some r => let r' := r &&& 0xF7#8; if r' = 0x40#8 then sh.pp else sh.pp ++ [r']
+          | none => sh.pp
+        else [0x67#8] ++ sh.pp ++ rexBytes sh.rex             -- "Insert address-size override prefix."
+      (s.emit (pre ++ sh.opc ++ [modrm 0 sh.opReg 4, 0x25#8] ++ leBytes lo.toNat 4 ++ sh.imm), .ok)
+    if at1 = .rel then
+      match absLocation s with
+      | none =>
+        let re : Reloc := { type := .absToRel, fmt := { fmtS 4 with valueOffset := leadRel.length },
+                            regionSize := leadRel.length + 4 + sh.imm.length, srcSec := s.cur, tgtSec := none,
+                            srcOff := s.curOff, payload := addr }
+        let (s1, _) := newReloc s re
+        (s1.emit (leadRel ++ zeros 4 ++ sh.imm), .ok)
+      | some (base, so) =>
+        let virtualOffset := s.curOff + (sh.pp ++ rexBytes sh.rex ++ sh.opc).length + sh.imm.length + 5
+        let rel64 := addr - (base + so + BitVec.ofNat 64 virtualOffset)
+        if isInt32 rel64 then (s.emit (leadRel ++ leBytes (rel64.truncate 32).toNat 4 ++ sh.imm), .ok)
+        else if at_ = .rel then (s, .invalidAddress)
+        else absForm
+    else absForm
+
+/-- `mov` with the accumulator and an absolute operand: the ModRM-less `A0..A3 moffs` form when `x86_should_use_movabs` says so
+(`EmitX86OpMovAbs`: the address is emitted with `register_size()` bytes), else the ordinary ModRM path -/
+def x86MemAbs (s : State) (sh : AShape) (at_ : AddrT) (addr : BitVec 64) : State Ã— Err :=
+  match sh.moffs with
+  | some mo =>
+    if shouldUseMovabs s mo.2 at_ addr then
+      (s.emit (sh.pp ++ rexBytes sh.rex ++ [mo.1] ++ leBytes addr.toNat s.arch.regSize), .ok)
+    else x86MemAbsM s sh at_ addr
+  | none => x86MemAbsM s sh at_ addr
+
 /-! ### AArch64 -/
 
 inductive A64Kind where
